@@ -198,6 +198,9 @@ def client_edit(c, net, mat):
     net.add_reaction(Reaction(list(extra[0]), list(extra[1]), -1.0, -1.0, 1e-10, 0.0, 0.0, t, 77))
     net.required_species = [s.name for s in net.required_species] + ["O"]  # a species no reaction of any client mentions
     net.allowed_species = [s.name for s in sorted(net.species, key=lambda s: s.name)]
+    if c == "F":
+        # the dust model is a setting of the network like any other: rates rendered before the change must not survive it
+        net.grain_model = "rr07x"
     if c in ("A", "F"):
         # shielding functions are chosen on the table the accessor hands out (there is no setter): one network's choice
         net.shielding["H2" if c == "A" else "CO"] = "L96Table" if c == "A" else "VB88Table"
